@@ -94,6 +94,7 @@ func cmdRun(args []string) int {
 	timeFixed := fs.Bool("timefixed", false, "time.Now returns a fixed instant")
 	stall := fs.Bool("stall", false, "budget overruns are stall candidates")
 	timers := fs.Bool("timers", false, "timers with a finite duration may fire")
+	symaddr := fs.Bool("symaddr", false, "object addresses are symbolic")
 	fs.Parse(args)
 	lp, err := loadProgram(*pkg)
 	if err != nil {
@@ -101,7 +102,7 @@ func cmdRun(args []string) int {
 		return 2
 	}
 	cfg := &harnessCfg{Prop: "adhoc", Pkg: *pkg, Func: *fn, Tier: *tier, StepBudget: *steps, DecBudget: *decs,
-		concLimit: *conc, Timeout: time.Duration(*timeout) * time.Second, Workers: *workers, FP: *fp, MaxPaths: *maxPaths, TimeFixed: *timeFixed, Stall: *stall, TimersMayFire: *timers}
+		concLimit: *conc, Timeout: time.Duration(*timeout) * time.Second, Workers: *workers, FP: *fp, MaxPaths: *maxPaths, TimeFixed: *timeFixed, Stall: *stall, TimersMayFire: *timers, SymAddr: *symaddr}
 	traceAll = *trace
 	res := runHarness(cfg, lp)
 	printResult(res)
